@@ -1,6 +1,7 @@
 (* Reader for the TFF problem files anthem emits: a sequence of statements
      tff(<name>, type, <ident>: <signature>).      <signature> ::= $tType | $o | <type>
                                                               | (<type> * .. * <type>) > ($o | <type>)
+                                                              | <type> > ($o | <type>)
      tff(<name>, axiom|conjecture, <formula>).
    Formula bodies are read by the EXTRACTED specification reader M.TptpPrint.tff_read.
    Result: M.Tff.tff_problem, or an error naming the offending statement. *)
@@ -23,6 +24,9 @@ let signature (toks : ptoken list) : tff_sig =
      | "$tType" -> SigType
      | "$o" -> SigPred []
      | w -> SigFun ([], ty_of_word w))
+  | [ T (KWord a); Gt; T (KWord res) ] ->          (* `t > r`: tptp4X prints unary signatures bare *)
+    let a = [ ty_of_word (Conv.string_of_cl a) ] in
+    (match Conv.string_of_cl res with "$o" -> SigPred a | r -> SigFun (a, ty_of_word r))
   | T KLPar :: rest ->
     let rec args acc = function
       | T (KWord w) :: Star :: r -> args (ty_of_word (Conv.string_of_cl w) :: acc) r
